@@ -197,3 +197,14 @@ package models
 //@   assert RemoveChild(parent)#2: [same-url] urlKey(node.url) == urlKey(existing.url)
 //@   assert RemoveChild(parent)#2: [leaf-only] len(node.children) == 0 // C11: de-duplication never discards a URL altogether
 //@   ensures [seed-only] i.parent != nil ==> result != nil && i.status == old(i.status)
+
+// Depth below the page, not counting redirections: dwr is any function satisfying the
+// recursive equations on the current heap (dwrDef for all nodes); the method computes it.
+//@ pure dwr(n *Item) int
+//@ pred dwrStep(n *Item) = (n.parent == nil ==> dwr(n) == ite(n.status == ItemGotRedirected, -1, 0)) && (n.parent != nil ==> dwr(n) == dwr(n.parent) + ite(n.status == ItemGotRedirected, 0, 1))
+//@ pred dwrDef() = forall(n, *Item, n != nil ==> dwrStep(n))
+//@ func (*Item).GetDepthWithoutRedirections
+//@   property C06
+//@   requires dwrDef()
+//@   modifies nothing
+//@   ensures [def] result == dwr(i) // C06: embedded resources are fetched at most three levels below the page
